@@ -111,6 +111,10 @@ type FnEnc struct {
 	escaped        bool     // a locally allocated reference may have reached the heap or a callee
 	escapedRefs    []string // fresh references of this activation that may have escaped
 	escapedSeen    map[string]bool
+	// where a fresh reference escaped: blocks of the function under proof (nil entry = an
+	// inlined callee or unknown place: treated as escaped everywhere)
+	escapedAt   map[string][]*ssa.BasicBlock
+	escapeBlock *ssa.BasicBlock // block being encoded by the top frame (nil inside inlined callees)
 	refAlias       map[string][]string
 	refAxioms      bool // emit the reference well-formedness axiom for unknown pointer-valued heap arrays
 	epochDeclared  map[string]bool
@@ -1127,6 +1131,9 @@ func (f *frame) encodeBody(entryPC string, entryHeap Heap) {
 	f.entryHeap = entryHeap.clone()
 	for _, b := range order {
 		f.curBlock = b
+		if f == f.enc.top {
+			f.enc.escapeBlock = b
+		}
 		var reach string
 		var heap Heap
 		li := f.loopHeads[b.Index]
@@ -1293,6 +1300,38 @@ func (f *frame) loopHead(li *loopInfo) {
 			continue // never read so far: declare lazily through heapGet at first use after bump
 		}
 		if e.E.stableKeys()[key] != nil {
+			continue
+		}
+		f.curHeap[key] = e.declare(e.fresh(key), sortS)
+	}
+	// havocAllHeap / havocDynamic give the function's own unescaped allocations their
+	// pre-havoc contents back (no callee can reach them) - but the loop's OWN stores can:
+	// every array a store, map update, append, copy or delete of the loop body writes is
+	// forgotten here, local allocations included
+	direct := map[string]bool{}
+	for _, blk := range f.fn.Blocks {
+		if !li.blocks[blk.Index] {
+			continue
+		}
+		for _, in := range blk.Instrs {
+			switch x := in.(type) {
+			case *ssa.Store, *ssa.MapUpdate:
+				e.E.instrWrites(e, in, direct)
+			case *ssa.Call:
+				if _, isB := x.Call.Value.(*ssa.Builtin); isB {
+					e.E.instrWrites(e, in, direct)
+				}
+			}
+		}
+	}
+	var dks []string
+	for k := range direct {
+		dks = append(dks, k)
+	}
+	sort.Strings(dks)
+	for _, key := range dks {
+		sortS, ok := e.R.heapDecl[key]
+		if !ok || e.E.stableKeys()[key] != nil {
 			continue
 		}
 		f.curHeap[key] = e.declare(e.fresh(key), sortS)
@@ -1656,7 +1695,7 @@ func (f *frame) restoreLocals(old Heap, only map[string]bool) {
 	e := f.enc
 	for fr := f; fr != nil; fr = fr.parent {
 		for _, la := range fr.locals {
-			if e.escapedSeen[la.ref] {
+			if e.escapedSeen[la.ref] && f.escapedOnSomePathTo(la.ref) {
 				continue // visible to other code by now
 			}
 			var keys [][2]string
@@ -1689,6 +1728,23 @@ func (f *frame) restoreLocals(old Heap, only map[string]bool) {
 			}
 		}
 	}
+}
+
+// escapedOnSomePathTo: has the reference escaped at a program point from which the block being
+// encoded can be reached (or in that block itself)?  An escape that happens only after the
+// current point - the slice is stored into a record once the loop that fills it is done - has
+// not made the memory reachable for the calls encoded here.
+func (f *frame) escapedOnSomePathTo(ref string) bool {
+	e := f.enc
+	if f != e.top || f.curBlock == nil {
+		return true
+	}
+	for _, b := range e.escapedAt[ref] {
+		if b == nil || b == f.curBlock || reachesAvoiding(b, f.curBlock, nil) {
+			return true
+		}
+	}
+	return len(e.escapedAt[ref]) == 0
 }
 
 // rangeInv: for the hidden index phi of a range-over-slice/string loop
